@@ -28,6 +28,8 @@ type SpecEnv struct {
 	pkg  *types.Package
 	fr   *Frame
 	hdr  *ssa.BasicBlock
+	at   ssa.Instruction // program point for local-variable lookup (call-site assertions)
+	soft bool            // failures are recorded in errs only (scope probing)
 	errs []string
 }
 
@@ -57,7 +59,9 @@ func (c *Ctx) specEnv(fr *Frame, cur, old *State, hdr *ssa.BasicBlock) *SpecEnv 
 
 func (e *SpecEnv) fail(msg string) Val {
 	e.errs = append(e.errs, msg)
-	e.c.leave("spec: " + msg)
+	if !e.soft {
+		e.c.leave("spec: " + msg)
+	}
 	return Val{T: types.Typ[types.Bool], S: "false"}
 }
 
@@ -236,7 +240,7 @@ func (env *SpecEnv) lookupIdent(name string) (Val, bool) {
 	case "nil":
 		return Val{T: types.Typ[types.UntypedNil], S: "NIL"}, true
 	}
-	if env.fr != nil && env.hdr != nil {
+	if env.fr != nil && (env.hdr != nil || env.at != nil) {
 		if v, ok := c.lookupLocal(env, name); ok {
 			return v, true
 		}
@@ -279,6 +283,11 @@ func (env *SpecEnv) objVal(obj types.Object) (Val, bool) {
 // lookupLocal resolves a source-level local variable name at a loop header.
 func (c *Ctx) lookupLocal(env *SpecEnv, name string) (Val, bool) {
 	fr, hdr := env.fr, env.hdr
+	limit := 0
+	if hdr == nil {
+		hdr = env.at.Block()
+		limit = indexIn(hdr, env.at)
+	}
 	for _, in := range hdr.Instrs {
 		phi, ok := in.(*ssa.Phi)
 		if !ok {
@@ -304,10 +313,13 @@ func (c *Ctx) lookupLocal(env *SpecEnv, name string) (Val, bool) {
 		return bb.Dominates(nb)
 	}
 	for _, b := range fr.fn.Blocks {
-		if !(b.Dominates(hdr)) || b == hdr {
+		if !(b.Dominates(hdr)) || (b == hdr && limit == 0) {
 			continue
 		}
-		for _, in := range b.Instrs {
+		for ii, in := range b.Instrs {
+			if b == hdr && ii >= limit {
+				break
+			}
 			switch x := in.(type) {
 			case *ssa.DebugRef:
 				id, ok := x.Expr.(*ast.Ident)
@@ -754,6 +766,21 @@ func (c *Ctx) specBinary(env *SpecEnv, x *ast.BinaryExpr, want types.Type) Val {
 	}
 	if a.T == nil || b.T == nil {
 		return env.fail("untyped operand in " + exprString(x))
+	}
+	// interior pointers (&x.f) compared with nil: non-nil exactly when the base is
+	if a.S == "" && a.P != nil && (x.Op == token.EQL || x.Op == token.NEQ) && b.S == "0" {
+		if a.P.isCell() {
+			a.S = "1"
+		} else {
+			a.S = a.P.Base
+		}
+	}
+	if b.S == "" && b.P != nil && (x.Op == token.EQL || x.Op == token.NEQ) && a.S == "0" {
+		if b.P.isCell() {
+			b.S = "1"
+		} else {
+			b.S = b.P.Base
+		}
 	}
 	if a.S == "" || b.S == "" {
 		return env.fail("operand without term in " + exprString(x))
